@@ -447,12 +447,13 @@ async def sorted(
     """
     if key is None:
         # TODO: is this a worthwhile optimisation?
-        try:
-            return _sync_builtins.sorted(iterable, reverse=reverse)  # type: ignore
-        except TypeError:
-            items: _sync_builtins.list[Any] = [item async for item in aiter(iterable)]
-            items.sort(reverse=reverse)
-            return items
+        # Only take the synchronous path if we know it applies: trying it and
+        # falling back on TypeError would lose the items of a one-shot iterator.
+        if not isinstance(iterable, AsyncIterable):
+            return _sync_builtins.sorted(iterable, reverse=reverse)
+        items: _sync_builtins.list[Any] = [item async for item in aiter(iterable)]
+        items.sort(reverse=reverse)
+        return items
     else:
         async_key = _awaitify(key)
         keyed_items = [(await async_key(item), item) async for item in aiter(iterable)]
